@@ -1,8 +1,150 @@
-(* C32: theorems (statements only; proofs are in Import/*.v). *)
-From CV Require Import Base.Bytes Import.Defs Import.Spec.
+(* C32  Compilation-database import reproduces the compiler's options.
+   Statements only; the proofs are in Import/CollectProofs.v, ParseProofs.v, DefinesProofs.v.
+   Model: Import/Defs.v (collect_args, parse_args, fs_set_defines, fs_set_includes, import_entry, cfg_macros).
+   Specification: Import/Spec.v (sh_words, shlex_join, cmake_join, gcc_toks, gcc_macros). *)
+From CV Require Import Base.Bytes Import.Defs Import.Spec Import.CollectProofs Import.ParseProofs Import.DefinesProofs.
 Local Open Scope N_scope.
 
-Theorem C32_collect_tab_refuted :
-  exists cmd, sh_words cmd = ShOk [lit "gcc"; lit "-DX"]%string /\ collect_args cmd <> Some [lit "gcc"; lit "-DX"]%string.
-Proof. exists (lit "gcc" ++ [9] ++ lit "-DX")%string. split; [reflexivity | discriminate]. Qed.
+(* ---- command strings ---- *)
+
+(* every argument vector without empty words survives shlex.join + collectArgs (all bytes, NUL included) *)
+Theorem C32_collect_shlex_roundtrip : forall args,
+  Forall (fun a => a <> []) args -> collect_args (shlex_join args) = Some args.
+Proof. exact collect_shlex_roundtrip. Qed.
+Print Assumptions C32_collect_shlex_roundtrip.
+
+(* the same for CMake's quoting, provided no argument contains '$' or '`' *)
+Theorem C32_collect_cmake_roundtrip : forall args,
+  Forall cmake_ok args -> collect_args (cmake_join args) = Some args.
+Proof. exact collect_cmake_roundtrip. Qed.
+Print Assumptions C32_collect_cmake_roundtrip.
+
+(* ... and that proviso is needed: CMake writes backslash-dollar inside double quotes, collectArgs keeps the backslash *)
+Theorem C32_collect_cmake_dollar_refuted :
+  exists args, Forall (fun a => a <> []) args /\ sh_words (cmake_join args) = ShOk args /\
+               collect_args (cmake_join args) <> Some args.
+Proof. exact collect_cmake_dollar_refuted. Qed.
+Print Assumptions C32_collect_cmake_dollar_refuted.
+
+(* the specification itself: a POSIX shell reads shlex.join's output back as the vector (all vectors) *)
+Theorem C32_sh_words_shlex_join : forall args, sh_words (shlex_join args) = ShOk args.
+Proof. exact sh_words_shlex_join. Qed.
+Print Assumptions C32_sh_words_shlex_join.
+
+(* collectArgs = POSIX word splitting (minus empty words) on every command in the expansion-free
+   sublanguage whose blanks are spaces and whose backslashes stand before characters that both read alike *)
+Theorem C32_collect_eq_sh_words_under : forall cmd ws,
+  sh_words cmd = ShOk ws -> simple cmd QNone = true -> collect_args cmd = Some (filter nonempty ws).
+Proof. exact collect_eq_sh_words_under. Qed.
+Print Assumptions C32_collect_eq_sh_words_under.
+
+Example C32_simple_inhabited :
+  let cmd := lit "gcc ""-DS=\""a b\"""" '-Ix y' ""-DT=c:\dir"" a.c"%string in
+  simple cmd QNone = true /\ exists ws, sh_words cmd = ShOk ws /\ length ws = 5%nat.
+Proof. split; [vm_compute; reflexivity|eexists; split; vm_compute; reflexivity]. Qed.
+
+Theorem C32_collect_tab_refuted : differs (lit "gcc" ++ [9] ++ lit "-DX")%string.
+Proof. exact collect_tab_refuted. Qed.
+Theorem C32_collect_newline_refuted : differs (lit "gcc" ++ [10] ++ lit "-DX")%string.
+Proof. exact collect_newline_refuted. Qed.
+Theorem C32_collect_backslash_plain_refuted : differs (lit "gcc -DA=a\nb")%string.
+Proof. exact collect_backslash_plain_refuted. Qed.
+Theorem C32_collect_backslash_dq_refuted : differs ([34] ++ lit "-DA=a\ b" ++ [34])%string.
+Proof. exact collect_backslash_dq_refuted. Qed.
+Theorem C32_collect_empty_word_refuted :
+  exists cmd ws, sh_words cmd = ShOk ws /\ collect_args cmd <> Some ws.
+Proof. exact collect_empty_word_refuted. Qed.
 Print Assumptions C32_collect_tab_refuted.
+
+(* ---- argument vectors ---- *)
+
+(* when GCC accepts the vector and every word that GCC does not read as -I/-D/-U/-isystem/-std= is inert
+   (starts with none of -I /I -isystem -D /D -U /U -std= /std:, is none of -f -m -fpic -fPIC -fpie -fPIE -municode),
+   parseArgs yields exactly: the -I directories (first occurrences, in order), the -isystem directories,
+   fsSetDefines of the -D macros, the set of -U names, the last -std= value *)
+Theorem C32_parse_args_exact : forall argv toks,
+  gcc_toks argv = Some toks -> forallb tok_ok toks = true ->
+  exists s, parse_args argv = Some s /\
+    p_incs s = dedup (tok_incs toks) /\
+    p_sys s = tok_sys toks /\
+    p_defs s = fs_set_defines (defs_string (tok_defs toks)) /\
+    p_undefs s = sort_set (tok_undefs toks) /\
+    p_std s = tok_std toks.
+Proof. exact parse_args_exact. Qed.
+Print Assumptions C32_parse_args_exact.
+
+Example C32_parse_args_pic_outside_hypothesis :
+  let argv := [lit "/usr/bin/cc"; lit "-DX=1"; lit "-D"; lit "Y"; lit "-Iinc"; lit "-I"; lit "inc2"; lit "-UZ";
+               lit "-isystem"; lit "/s"; lit "-std=gnu11"; lit "-O2"; lit "-fPIC"%string; lit "-MD"; lit "-MF"; lit "a.d";
+               lit "-o"; lit "a.o"; lit "-c"; lit "src/a.c"]%string in
+  exists toks, gcc_toks argv = Some toks /\ forallb tok_ok toks = false.
+Proof. eexists; split; vm_compute; reflexivity. Qed.
+
+Example C32_parse_args_exact_inhabited :
+  let argv := [lit "/usr/bin/cc"; lit "-DX=1"; lit "-D"; lit "Y"; lit "-Iinc"; lit "-I"; lit "inc2"; lit "-UZ";
+               lit "-isystem"; lit "/s"; lit "-std=gnu11"; lit "-O2"; lit "-fno-common"; lit "-MD"; lit "-MF"; lit "a.d";
+               lit "-o"; lit "a.o"; lit "-c"; lit "src/a.c"]%string in
+  exists toks, gcc_toks argv = Some toks /\ forallb tok_ok toks = true.
+Proof. eexists; split; vm_compute; reflexivity. Qed.
+
+(* the table of two-word options itself satisfies the hypothesis *)
+Example C32_two_word_inert : forallb inert two_word = true.
+Proof. vm_compute. reflexivity. Qed.
+
+(* the hypothesis is needed *)
+Theorem C32_parse_args_output_operand_refuted : misread [lit "gcc"; lit "-o"; lit "-Dx.o"; lit "a.c"]%string.
+Proof. exact parse_args_output_operand_refuted. Qed.
+Theorem C32_parse_args_include_operand_refuted : misread [lit "gcc"; lit "-include"; lit "-Ifoo.h"; lit "a.c"]%string.
+Proof. exact parse_args_include_operand_refuted. Qed.
+Theorem C32_parse_args_abs_path_refuted : misread [lit "gcc"; lit "-c"; lit "/Data/src/a.c"]%string.
+Proof. exact parse_args_abs_path_refuted. Qed.
+Theorem C32_parse_args_abs_path_undef_refuted : misread [lit "/Users/me/bin/cc"; lit "-c"; lit "a.c"]%string.
+Proof. exact parse_args_abs_path_undef_refuted. Qed.
+Print Assumptions C32_parse_args_abs_path_refuted.
+
+(* ---- the define list ---- *)
+
+(* for every list of ordinary -D arguments (non-empty, no ';', not starting with ; = ( %):
+   the ';'-joined list, with =1 appended to the macros that have neither '=' nor '(' *)
+Theorem C32_defines_normal_form : forall l,
+  Forall (fun d => def_ok d = true) l -> fs_set_defines (defs_string l) = join_semi (map norm_def l).
+Proof. exact defines_normal_form. Qed.
+Print Assumptions C32_defines_normal_form.
+
+Example C32_defines_normal_form_inhabited :
+  Forall (fun d => def_ok d = true) [lit "X"; lit "Y=2"; lit "F(a)=a+1"; lit "S=""a b"""]%string.
+Proof. repeat constructor. Qed.
+
+Theorem C32_defines_semicolon_refuted :
+  exists argv toks s, gcc_toks argv = Some toks /\ forallb tok_ok toks = true /\ parse_args argv = Some s /\
+    tbl_get (lit "b"%string) (cfg_macros (p_defs s) (p_undefs s)) <> None /\
+    gs_get (lit "b"%string) (gcc_macros toks) = None.
+Proof. exact defines_semicolon_refuted. Qed.
+
+(* ---- the macro state that the analysis sees (cfg_macros) vs the one the options specify (gcc_macros) ---- *)
+
+Theorem C32_macro_state_undef_then_define_refuted :
+  exists argv toks s, gcc_toks argv = Some toks /\ forallb tok_ok toks = true /\ parse_args argv = Some s /\
+    gs_get (lit "X"%string) (gcc_macros toks) = Some (lit "X", lit "1")%string /\
+    tbl_get (lit "X"%string) (cfg_macros (p_defs s) (p_undefs s)) = None.
+Proof. exact macro_state_undef_then_define_refuted. Qed.
+
+Theorem C32_macro_state_redefine_refuted :
+  exists argv toks s, gcc_toks argv = Some toks /\ forallb tok_ok toks = true /\ parse_args argv = Some s /\
+    gs_get (lit "X"%string) (gcc_macros toks) = Some (lit "X", lit "2")%string /\
+    tbl_get (lit "X"%string) (cfg_macros (p_defs s) (p_undefs s)) = Some (lit "X", lit "1")%string.
+Proof. exact macro_state_redefine_refuted. Qed.
+Print Assumptions C32_macro_state_redefine_refuted.
+
+(* ---- command string vs argument array ---- *)
+
+Theorem C32_import_command_eq_arguments_shlex : forall dir file args,
+  Forall (fun a => a <> []) args ->
+  import_entry dir file (Command (shlex_join args)) = import_entry dir file (Arguments args).
+Proof. exact import_command_eq_arguments_shlex. Qed.
+
+Theorem C32_import_command_eq_arguments_cmake : forall dir file args,
+  Forall cmake_ok args ->
+  import_entry dir file (Command (cmake_join args)) = import_entry dir file (Arguments args).
+Proof. exact import_command_eq_arguments_cmake. Qed.
+Print Assumptions C32_import_command_eq_arguments_cmake.
